@@ -56,14 +56,14 @@ Qed.
 Lemma is_anc_true_desc m : forall f a x, is_anc f m a x = Some true -> desc m a x.
 Proof.
   induction f as [|f IH]; intros a x H; [discriminate|]. simpl in H.
-  destruct (Nat.eqb_spec x a) as [->|Hne]; [constructor|].
+  destruct (Nat.eqb_spec x a) as [Heq|Hne]; [subst; constructor|].
   destruct (parent (m x)) as [p|] eqn:Hp; [|discriminate]. eapply desc_child; eauto.
 Qed.
 
 Lemma is_anc_false_not_desc m : forall f a x, is_anc f m a x = Some false -> ~ desc m a x.
 Proof.
   induction f as [|f IH]; intros a x H; [discriminate|]. simpl in H.
-  destruct (Nat.eqb_spec x a) as [->|Hne]; [discriminate|].
+  destruct (Nat.eqb_spec x a) as [Heq|Hne]; [discriminate|].
   intro Hd. apply desc_inv in Hd. destruct Hd as [?|(q & Hq & Hd)]; [congruence|].
   rewrite Hq in H. now apply (IH a q).
 Qed.
